@@ -349,10 +349,10 @@ Notation o_wf := (op_wf marshal of_ancestor change_valid).
 Notation same := (@same_outcome_prop snapshot pathT fsig result problem).
 
 Section Sessions.
-Variable read_only : bool.
+Variables fixed read_only : bool.
 Variable St : Type.
 Variable E : endpoint snapshot pathT digestT fsig result problem change St.
-Hypothesis E_ok : ep_ok read_only E.
+Hypothesis E_ok : ep_ok fixed read_only E.
 
 Lemma precheck_none_valid : forall (ps : list pathT) (ds : list digestT),
     client_stage_precheck (fsig := fsig) ps ds = None -> stage_request_valid ps ds = true.
@@ -366,7 +366,7 @@ Qed.
 (* one operation: same outcome, same endpoint state, and either both runs go
    on with a live server or both stop *)
 Lemma step_equiv : forall o st last,
-    o_wf o -> known_c21 read_only o = false ->
+    o_wf o -> known_c21 fixed read_only o = false ->
     let '(st1, r1) := local_step E st o in
     let '(s2, r2) := rstep E {| cl_last := last; sv_alive := true; sv_state := st |} o in
     same r1 r2 /\ ends_session r1 = ends_session r2
@@ -395,19 +395,21 @@ Proof.
         apply Nat.eqb_eq in E1. apply Nat.eqb_eq in E2.
         assert (ps = []) by (apply length_zero_nil; exact E2). subst ps.
         assert (ds = []) by (apply length_zero_nil; cbn in E1; lia). subst ds.
-        cbn [known_c21] in Hk. subst read_only.
-        rewrite (ok_stage_front E_ok st [] [] (GAOk [] []) eq_refl).
+        cbn [known_c21] in Hk.
+        assert (Hfront : local_stage_front (fsig := fsig) fixed read_only
+                                           (@nil pathT) (@nil digestT) = Some (GAOk [] [])).
+        { unfold local_stage_front. cbn [List.length Nat.eqb negb].
+          destruct fixed; [reflexivity|]. cbn [negb andb] in Hk. rewrite Hk. reflexivity. }
+        rewrite (ok_stage_front E_ok st [] [] _ Hfront).
         cbn. auto.
       * inversion Ep; subst r. clear Ep.
-        destruct read_only eqn:Ero.
-        -- rewrite (ok_stage_front E_ok st ps ds
-                                   (GAErr "endpoint is in read-only mode") eq_refl).
-           cbn. repeat split; auto; try discriminate.
-        -- assert (Hfront : local_stage_front (fsig := fsig) false ps ds
-                            = Some (GAErr "path count does not match digest count")).
-           { unfold local_stage_front. rewrite E1. reflexivity. }
-           rewrite (ok_stage_front E_ok st ps ds _ Hfront).
-           cbn. repeat split; auto; try discriminate.
+        assert (Hfront : exists m, local_stage_front (fsig := fsig) fixed read_only ps ds
+                                   = Some (GAErr m)).
+        { unfold local_stage_front. rewrite E1. cbn [negb].
+          destruct fixed; [eauto|]. destruct read_only; eauto. }
+        destruct Hfront as [m Hfront].
+        rewrite (ok_stage_front E_ok st ps ds _ Hfront).
+        cbn. repeat split; auto; try discriminate.
     + rewrite (precheck_none_valid ps ds Ep). cbn [negb].
       destruct (ep_stage E st ps ds) as [st' a] eqn:Es. cbn [snd] in Hans.
       destruct a as [ps' ss | m]; cbn [stage_answer_wf] in Hans; cbn [server_stage lift_stage].
@@ -427,7 +429,7 @@ Proof.
 Qed.
 
 Theorem session_equivalence : forall ops st last,
-    Forall o_wf ops -> Forall (fun o => known_c21 read_only o = false) ops ->
+    Forall o_wf ops -> Forall (fun o => known_c21 fixed read_only o = false) ops ->
     Forall2 same (local_run E st ops)
             (rrun E {| cl_last := last; sv_alive := true; sv_state := st |} ops).
 Proof.
@@ -445,6 +447,21 @@ Proof.
 Qed.
 
 End Sessions.
+
+Theorem session_equivalence_fixed :
+  forall (read_only : bool) (St : Type)
+         (E : endpoint snapshot pathT digestT fsig result problem change St),
+    ep_ok true read_only E ->
+    forall ops st last,
+      Forall o_wf ops ->
+      Forall2 same (local_run E st ops)
+              (rrun E {| cl_last := last; sv_alive := true; sv_state := st |} ops).
+Proof.
+  intros ro St E Hok ops st last Hwf.
+  apply (session_equivalence true ro St E Hok); [exact Hwf|].
+  apply Forall_forall. intros o _. destruct o as [| ps ds |]; try reflexivity.
+  destruct ps; [destruct ds|]; reflexivity.
+Qed.
 
 (* ---------------------------------------------------------------- checker *)
 Variable snapshot_eqb : snapshot -> snapshot -> bool.
@@ -494,16 +511,16 @@ Proof.
     + intros H. inversion H; subst. split; assumption.
 Qed.
 
-Theorem model_passes_check : forall read_only St
+Theorem model_passes_check : forall fixed read_only St
     (E : endpoint snapshot pathT digestT fsig result problem change St),
-    ep_ok read_only E ->
+    ep_ok fixed read_only E ->
     forall ops st last,
-      Forall o_wf ops -> Forall (fun o => known_c21 read_only o = false) ops ->
+      Forall o_wf ops -> Forall (fun o => known_c21 fixed read_only o = false) ops ->
       check (local_run E st ops)
             (rrun E {| cl_last := last; sv_alive := true; sv_state := st |} ops) = true.
 Proof.
-  intros ro St E Hok ops st last Hwf Hk. apply check_sound.
-  apply (session_equivalence ro St E Hok); assumption.
+  intros fx ro St E Hok ops st last Hwf Hk. apply check_sound.
+  apply (session_equivalence fx ro St E Hok); assumption.
 Qed.
 
 End Proofs.
@@ -512,30 +529,30 @@ End Proofs.
 
 (* A read-only endpoint in the model's terms: its Stage begins as
    local/endpoint.go's does, everything else is trivial. *)
-Definition ro_endpoint : endpoint unit unit unit unit unit unit unit unit :=
+Definition ro_endpoint (fx : bool) : endpoint unit unit unit unit unit unit unit unit :=
   {| ep_scan := fun st _ => (st, SAErr "unused" false);
      ep_stage := fun st ps ds =>
-       (st, match local_stage_front (fsig := unit) true ps ds with
+       (st, match local_stage_front (fsig := unit) fx true ps ds with
             | Some a => a
             | None => GAOk [] []
             end);
      ep_transition := fun st _ => (st, TAErr "endpoint is in read-only mode") |}.
 
 Definition ro_local : list (res unit unit unit unit unit) :=
-  local_run (ancestor := unit) ro_endpoint tt [OpStage [] []].
+  local_run (ancestor := unit) (ro_endpoint false) tt [OpStage [] []].
 Definition ro_remote : list (res unit unit unit unit unit) :=
   remote_run (fun _ : unit => Some tt) (fun _ : unit => Some tt) (fun _ : unit => tt)
              (fun _ _ => tt) (fun _ _ _ => Some tt) (fun _ : unit => tt)
              (fun _ => true) (fun _ => true) (fun _ : unit => true) (fun _ => true) tt
              (fun _ : unit => true) (fun _ : unit => true) (fun _ : unit => true)
-             (fun _ : unit => true) ro_endpoint
+             (fun _ : unit => true) (ro_endpoint false)
              {| cl_last := None; sv_alive := true; sv_state := tt |} [OpStage [] []].
 
 Lemma readonly_empty_stage_diverges :
   ro_local = [ResStage (GErr (ERemote "endpoint is in read-only mode"))]
   /\ ro_remote = [ResStage (GOk [] [])]
   /\ known_c21 (ancestor := unit) (pathT := unit) (digestT := unit) (change := unit)
-               true (OpStage [] []) = true.
+               false true (OpStage [] []) = true.
 Proof. vm_compute. repeat split. Qed.
 
 (* ------------------------------------------------- the hypotheses are satisfiable *)
